@@ -26,6 +26,10 @@ pub enum Policy {
     Custom,
 }
 
+fn one() -> u64 {
+    1
+}
+
 #[derive(Clone, Debug, Serialize, Deserialize)]
 pub struct RcCase {
     /// None = unlimited
@@ -37,6 +41,9 @@ pub struct RcCase {
     /// one after the other
     #[serde(default)]
     pub concurrent: bool,
+    /// the clock advances in steps of this many ms (stalled executor: timers are seen late)
+    #[serde(default = "one")]
+    pub step_ms: u64,
     /// sequential requests; per request a script of (latency ms, outcome: 0 ok, 1 reconnectable, 2 other error)
     pub requests: Vec<Vec<(u64, u8)>>,
 }
@@ -60,8 +67,9 @@ fn case_strategy(_tier: Tier) -> BoxedStrategy<RcCase> {
         any::<bool>(),
         prop::collection::vec(script, 1..=3),
         prop::bool::weighted(0.4),
+        prop_oneof![5 => Just(1u64), 1 => Just(2u64), 1 => Just(5u64), 1 => 2u64..=40],
     )
-        .prop_map(|(max_attempts, policy, retry_on_reconnect, predicate, mut requests, concurrent)| {
+        .prop_map(|(max_attempts, policy, retry_on_reconnect, predicate, mut requests, concurrent, step_ms)| {
             if max_attempts.is_none() {
                 // unlimited attempts: make every script end in a success so the case terminates
                 for s in requests.iter_mut() {
@@ -74,6 +82,7 @@ fn case_strategy(_tier: Tier) -> BoxedStrategy<RcCase> {
                 retry_on_reconnect,
                 predicate,
                 concurrent,
+                step_ms,
                 requests,
             }
         })
@@ -204,6 +213,7 @@ async fn interp(case: &RcCase) -> Verdict {
         sim.settle().await;
         let mut guard = 0;
         while tasks.iter().any(|&t| sim.state(t) == TaskState::Live) {
+            crate::vclock::advance_ms(case.step_ms.max(1) - 1);
             sim.tick().await;
             guard += 1;
             if guard > 6_000 {
@@ -235,6 +245,7 @@ async fn interp(case: &RcCase) -> Verdict {
                 if inner.shared.in_flight() == 0 && state.state() == ConnectionState::Connected {
                     mids[i].get_or_insert(sim::now());
                 }
+                crate::vclock::advance_ms(case.step_ms.max(1) - 1);
                 sim.tick().await;
                 guard += 1;
                 if guard > 3_000 {
@@ -409,6 +420,9 @@ async fn interp(case: &RcCase) -> Verdict {
     }
     if !sequential {
         classes.push("concurrent_requests_one_layer");
+    }
+    if case.step_ms > 1 {
+        classes.push("coarse_clock_steps");
     }
     Verdict {
         violations,
